@@ -3,6 +3,7 @@
 mod c07;
 mod c20;
 mod hist;
+mod stack;
 mod world;
 
 use simcore::{Budget, Engine, RunCtx, RunResult, Tier};
@@ -205,10 +206,11 @@ impl Engine for MgrEngine {
             "PathStrategy with sciparse AclPolicy / HopPatternPolicy parsed from generated strings and arbitrary predicates",
             "ExponentialBackoff (jitter drawn from the choice stream)",
             "tokio::sync::{Notify, broadcast}, tokio_util CancellationToken, arc_swap, scc::HashIndex (through verif-hooks wrappers)",
+            "stack mode (a third of the C05-C07 histories): UdpScionSocket::send_to / recv_from, PathUnawareUdpScionSocket, ScmpErrorHandler, wired to the manager as ScionStack::bind_with_config does (hook H10)",
         ]
     }
     fn stub_components(&self, _prop: &str) -> Vec<&'static str> {
-        vec!["task scheduler and timers (simrt: baton-passing actor threads, virtual clock)", "PathFetcher (scripted lookup service driven by the choice stream)", "callers and controller (driver operations)"]
+        vec!["task scheduler and timers (simrt: baton-passing actor threads, virtual clock)", "PathFetcher (scripted lookup service driven by the choice stream)", "callers and controller (driver operations)", "stack mode: the underlay below the socket (datagram queue owned by the driver; refuses one packet per first-hop failure)"]
     }
     fn assumptions(&self, _prop: &str) -> Vec<&'static str> {
         vec![
@@ -222,7 +224,7 @@ impl Engine for MgrEngine {
         match prop {
             "C05" => vec!["handout-path", "policy-rejected-some", "policy-accepted-some", "lookup-error", "clock-advance"],
             "C06" => vec!["handout-path", "lookup-error", "lookup-empty", "clock-on-boundary", "oracle-sizes", "final-liveness-checked"],
-            "C07" => vec!["report-concerns-active", "switch-checked", "report-unrelated"],
+            "C07" => vec!["report-concerns-active", "switch-checked", "report-unrelated", "stack-send", "stack-scmp-report", "stack-first-hop-refused"],
             "C20" => vec!["waiter-while-lookup-outstanding", "oracle-single-worker", "concurrent-first-requests", "oracle-drop", "caller-cancelled", "manager-dropped"],
             _ => vec![],
         }
